@@ -339,7 +339,7 @@ def ecallTerm (g : Cfg) : Cfg := (List.range g.nodes.size).foldl ecallStep g
 /-- the rewritten return keeps its own raw token (its location), whatever exit it now jumps to -/
 def returnJump (found : CNode) (exitTok : RawTok) : Node :=
   let info : FTok := ⟨.symbol, "return", found.node.tok.text, found.node.tok.range, found.node.tok.file⟩
-  .jumpLink ⟨"Jal", info⟩ ⟨0, info⟩ ⟨"__return__", info⟩ exitTok
+  .jumpLink ⟨"Jal", info⟩ ⟨0, info⟩ ⟨"<return>", info⟩ exitTok
 
 structure MarkSt where
   g : Cfg
